@@ -5,4 +5,4 @@ import (
 	"verif/internal/props/c18"
 )
 
-func main() { fw.Register(c18.Prop()); fw.Main() }
+func init() { fw.Register(c18.Prop()) }
